@@ -1755,9 +1755,9 @@ class Cat(Funsor, metaclass=CatMeta):
 
 @eager.register(Cat, str, tuple, str)
 def eager_cat(name, parts, part_name):
+    if part_name != name:
+        assert not any(name in x.inputs for x in parts)  # as in Cat.__init__
     if len(parts) == 1:
-        if part_name != name:
-            assert name not in parts[0].inputs  # as in Cat.__init__
         return parts[0](**{part_name: name})
     return eager_cat_homogeneous(name, part_name, *parts)
 
